@@ -40,6 +40,7 @@
 #include <fcntl.h>
 #include <errno.h>
 #include <ucontext.h>
+#include <execinfo.h>
 #include "c17_ledger.h"
 
 #if defined(__SANITIZE_ADDRESS__)
@@ -55,7 +56,31 @@
 
 extern char __executable_start[];
 #define PCOFF(ra) ((long) ((uintptr_t) (ra) - (uintptr_t) __executable_start))
-#define CALLER() PCOFF (__builtin_return_address (0))
+/* CALLER(): JSON list of the offsets of the innermost return addresses in library code, e.g. [1234,5678,..].
+   The first entry is the return address of the allocator member itself; the following ones let the report
+   name the function behind a non-inlined helper (VARR create ...) whatever the compiler inlined. */
+#define BT_DEPTH 5
+static __thread char bt_buf[BT_DEPTH * 24 + 8];
+static __attribute__ ((noinline)) const char *bt_list (void *ra0) {
+  void *a[BT_DEPTH + 6];
+  int n = backtrace (a, BT_DEPTH + 6), i, k = 0, len = 0;
+  for (i = 0; i < n && a[i] != ra0; i++)
+    ;
+  if (i == n) { /* unwinder did not see the frame: fall back to the one address we know */
+    snprintf (bt_buf, sizeof (bt_buf), "[%ld]", PCOFF (ra0));
+    return bt_buf;
+  }
+  bt_buf[len++] = '[';
+  for (; i < n && k < BT_DEPTH; i++, k++) {
+    long off = PCOFF (a[i]);
+    if (off < 0 || off > 0x7fffffffL) break; /* left the executable (generated code, libc) */
+    len += snprintf (bt_buf + len, sizeof (bt_buf) - len, k ? ",%ld" : "%ld", off);
+  }
+  bt_buf[len++] = ']';
+  bt_buf[len] = 0;
+  return bt_buf;
+}
+#define CALLER() bt_list (__builtin_return_address (0))
 #define PAGE 4096UL
 
 /* ------------------------------------------------------------------ event log */
@@ -176,7 +201,7 @@ static void *l_malloc (size_t size, void *ud) {
   ent_t *e = tab_add ((uintptr_t) p, size, ST_LIVE);
   (void) ud;
   note_live (e);
-  ev ("{\"e\":\"Malloc\",\"id\":%ld,\"size\":%zu,\"pc\":%ld}", e->id, size, CALLER ());
+  ev ("{\"e\":\"Malloc\",\"id\":%ld,\"size\":%zu,\"bt\":%s}", e->id, size, CALLER ());
   return p;
 }
 
@@ -186,13 +211,13 @@ static void *l_calloc (size_t num, size_t esz, void *ud) {
   ent_t *e;
   (void) ud;
   if (__builtin_mul_overflow (num, esz, &size)) {
-    ev ("{\"e\":\"CallocOverflow\",\"pc\":%ld}", CALLER ());
+    ev ("{\"e\":\"CallocOverflow\",\"bt\":%s}", CALLER ());
     return NULL;
   }
   p = block_new (size, 1);
   e = tab_add ((uintptr_t) p, size, ST_LIVE);
   note_live (e);
-  ev ("{\"e\":\"Calloc\",\"id\":%ld,\"num\":%zu,\"esz\":%zu,\"pc\":%ld}", e->id, num, esz, CALLER ());
+  ev ("{\"e\":\"Calloc\",\"id\":%ld,\"num\":%zu,\"esz\":%zu,\"bt\":%s}", e->id, num, esz, CALLER ());
   return p;
 }
 
@@ -202,7 +227,7 @@ static void *l_realloc (void *old, size_t old_size, size_t new_size, void *ud) {
   long oid;
   (void) ud;
   if (old != NULL && (o == NULL || o->st == ST_RAW)) { /* not a block of this allocator */
-    ev ("{\"e\":\"ForeignRealloc\",\"id\":%ld,\"osz\":%zu,\"nsz\":%zu,\"pc\":%ld}", o ? o->id : 0L, old_size, new_size,
+    ev ("{\"e\":\"ForeignRealloc\",\"id\":%ld,\"osz\":%zu,\"nsz\":%zu,\"bt\":%s}", o ? o->id : 0L, old_size, new_size,
         CALLER ());
     log_flush ();
     return NULL;
@@ -217,7 +242,7 @@ static void *l_realloc (void *old, size_t old_size, size_t new_size, void *ud) {
   /* o->st == ST_DEAD: realloc of a released block; logged with its dead id, the spec has no transition */
   e = tab_add ((uintptr_t) p, new_size, ST_LIVE); /* may move the table: o is invalid from here */
   note_live (e);
-  ev ("{\"e\":\"Realloc\",\"old\":%ld,\"osz\":%zu,\"nsz\":%zu,\"id\":%ld,\"pc\":%ld}", oid, old_size, new_size, e->id,
+  ev ("{\"e\":\"Realloc\",\"old\":%ld,\"osz\":%zu,\"nsz\":%zu,\"id\":%ld,\"bt\":%s}", oid, old_size, new_size, e->id,
       CALLER ());
   return p;
 }
@@ -226,18 +251,18 @@ static void l_free (void *p, void *ud) {
   ent_t *e;
   (void) ud;
   if (p == NULL) {
-    ev ("{\"e\":\"Free\",\"id\":0,\"pc\":%ld}", CALLER ());
+    ev ("{\"e\":\"Free\",\"id\":0,\"bt\":%s}", CALLER ());
     return;
   }
   e = tab_find ((uintptr_t) p);
   if (e == NULL || e->st == ST_RAW) {
-    ev ("{\"e\":\"ForeignFree\",\"id\":%ld,\"pc\":%ld}", e ? e->id : 0L, CALLER ());
+    ev ("{\"e\":\"ForeignFree\",\"id\":%ld,\"bt\":%s}", e ? e->id : 0L, CALLER ());
     log_flush ();
     return;
   }
   if (e->st == ST_LIVE) block_retire (e);
   /* ST_DEAD: second release of the same block: logged with the dead id */
-  ev ("{\"e\":\"Free\",\"id\":%ld,\"pc\":%ld}", e->id, CALLER ());
+  ev ("{\"e\":\"Free\",\"id\":%ld,\"bt\":%s}", e->id, CALLER ());
 }
 
 static struct MIR_alloc ledger_alloc = {l_malloc, l_calloc, l_realloc, l_free, NULL};
@@ -286,7 +311,7 @@ static void *c_map (size_t len, void *ud) {
   void *p;
   (void) ud;
   if (n_regs >= MAX_REGS || len == 0) {
-    ev ("{\"e\":\"MemMap\",\"r\":0,\"len\":%zu,\"pc\":%ld}", len, CALLER ());
+    ev ("{\"e\":\"MemMap\",\"r\":0,\"len\":%zu,\"bt\":%s}", len, CALLER ());
     return NULL;
   }
   p = mmap (NULL, maplen, PROT_READ, MAP_PRIVATE | MAP_ANONYMOUS, -1, 0);
@@ -298,7 +323,7 @@ static void *c_map (size_t len, void *ud) {
   r->shadow = calloc (1, maplen);
   r->id = next_reg++;
   r->st = 1;
-  ev ("{\"e\":\"MemMap\",\"r\":%ld,\"len\":%zu,\"pc\":%ld}", r->id, len, CALLER ());
+  ev ("{\"e\":\"MemMap\",\"r\":%ld,\"len\":%zu,\"bt\":%s}", r->id, len, CALLER ());
   return p;
 }
 
@@ -308,13 +333,13 @@ static int c_protect (void *addr, size_t len, MIR_mem_protect_t prot, void *ud) 
   const char *ps = prot == PROT_WRITE_EXEC ? "W" : prot == PROT_READ_EXEC ? "X" : "?";
   (void) ud;
   if (r == NULL || r->st != 1) { /* not inside a mapped region: region 0 does not exist in the spec */
-    ev ("{\"e\":\"Protect\",\"r\":0,\"rdead\":%ld,\"off\":0,\"len\":%zu,\"prot\":\"%s\",\"pc\":%ld}", r ? r->id : 0L, len, ps,
+    ev ("{\"e\":\"Protect\",\"r\":0,\"rdead\":%ld,\"off\":0,\"len\":%zu,\"prot\":\"%s\",\"bt\":%s}", r ? r->id : 0L, len, ps,
         CALLER ());
     return -1;
   }
   reg_diff (r);
   off = (size_t) ((uint8_t *) addr - r->base);
-  ev ("{\"e\":\"Protect\",\"r\":%ld,\"off\":%zu,\"len\":%zu,\"prot\":\"%s\",\"pc\":%ld}", r->id, off, len, ps, CALLER ());
+  ev ("{\"e\":\"Protect\",\"r\":%ld,\"off\":%zu,\"len\":%zu,\"prot\":\"%s\",\"bt\":%s}", r->id, off, len, ps, CALLER ());
   if (off % PAGE != 0 || off + len > r->len || ps[0] == '?') return -1; /* as mprotect: EINVAL / ENOMEM */
   if (len == 0) return 0;
   return mprotect (addr, len, prot == PROT_WRITE_EXEC ? (PROT_READ | PROT_WRITE | PROT_EXEC) : (PROT_READ | PROT_EXEC));
@@ -325,12 +350,12 @@ static int c_unmap (void *addr, size_t len, void *ud) {
   size_t off;
   (void) ud;
   if (r == NULL || r->st != 1) {
-    ev ("{\"e\":\"Unmap\",\"r\":0,\"rdead\":%ld,\"off\":0,\"len\":%zu,\"pc\":%ld}", r ? r->id : 0L, len, CALLER ());
+    ev ("{\"e\":\"Unmap\",\"r\":0,\"rdead\":%ld,\"off\":0,\"len\":%zu,\"bt\":%s}", r ? r->id : 0L, len, CALLER ());
     return -1;
   }
   reg_diff (r);
   off = (size_t) ((uint8_t *) addr - r->base);
-  ev ("{\"e\":\"Unmap\",\"r\":%ld,\"off\":%zu,\"len\":%zu,\"pc\":%ld}", r->id, off, len, CALLER ());
+  ev ("{\"e\":\"Unmap\",\"r\":%ld,\"off\":%zu,\"len\":%zu,\"bt\":%s}", r->id, off, len, CALLER ());
   if (off != 0 || len != r->len) return -1;
   mprotect (r->base, r->maplen, PROT_NONE); /* keep the addresses reserved: later use faults */
   free (r->shadow);
@@ -380,6 +405,8 @@ static void on_fault (int sig, siginfo_t *si, void *ucv) {
 /* ------------------------------------------------------------------ control */
 void c17_open (const char *path) {
   struct sigaction sa;
+  void *warm[4];
+  backtrace (warm, 4); /* loads the unwinder now, not inside an allocator call */
   static char altstack[1 << 16];
   stack_t ss;
   log_fd = open (path, O_WRONLY | O_CREAT | O_TRUNC, 0644);
@@ -489,14 +516,14 @@ void c17_reset (void) {
 void *__wrap_malloc (size_t size) {
   void *p = malloc (size);
   ent_t *e = tab_add ((uintptr_t) p, size, ST_RAW);
-  ev ("{\"e\":\"RawMalloc\",\"id\":%ld,\"size\":%zu,\"pc\":%ld}", e->id, size, CALLER ());
+  ev ("{\"e\":\"RawMalloc\",\"id\":%ld,\"size\":%zu,\"bt\":%s}", e->id, size, CALLER ());
   return p;
 }
 
 void *__wrap_calloc (size_t num, size_t esz) {
   void *p = calloc (num, esz);
   ent_t *e = tab_add ((uintptr_t) p, num * esz, ST_RAW);
-  ev ("{\"e\":\"RawCalloc\",\"id\":%ld,\"size\":%zu,\"pc\":%ld}", e->id, num * esz, CALLER ());
+  ev ("{\"e\":\"RawCalloc\",\"id\":%ld,\"size\":%zu,\"bt\":%s}", e->id, num * esz, CALLER ());
   return p;
 }
 
@@ -505,16 +532,16 @@ void __wrap_free (void *p) {
   /* owner: "user" = a block of the user's allocator handed to libc free; "libc" = a raw block;
      "dead" = already released; "none" = NULL or a pointer libc produced internally (strdup ...) */
   if (e != NULL && e->st == ST_LIVE) {
-    ev ("{\"e\":\"RawFree\",\"id\":%ld,\"owner\":\"user\",\"pc\":%ld}", e->id, CALLER ());
+    ev ("{\"e\":\"RawFree\",\"id\":%ld,\"owner\":\"user\",\"bt\":%s}", e->id, CALLER ());
     block_retire (e); /* not handed to libc: it is the allocator's block */
   } else if (e != NULL && e->st == ST_RAW) {
-    ev ("{\"e\":\"RawFree\",\"id\":%ld,\"owner\":\"libc\",\"pc\":%ld}", e->id, CALLER ());
+    ev ("{\"e\":\"RawFree\",\"id\":%ld,\"owner\":\"libc\",\"bt\":%s}", e->id, CALLER ());
     e->st = ST_TOMB;
     free (p);
   } else if (e != NULL) {
-    ev ("{\"e\":\"RawFree\",\"id\":%ld,\"owner\":\"dead\",\"pc\":%ld}", e->id, CALLER ());
+    ev ("{\"e\":\"RawFree\",\"id\":%ld,\"owner\":\"dead\",\"bt\":%s}", e->id, CALLER ());
   } else {
-    ev ("{\"e\":\"RawFree\",\"id\":0,\"owner\":\"none\",\"null\":%d,\"pc\":%ld}", p == NULL, CALLER ());
+    ev ("{\"e\":\"RawFree\",\"id\":0,\"owner\":\"none\",\"null\":%d,\"bt\":%s}", p == NULL, CALLER ());
     free (p);
   }
 }
@@ -537,30 +564,30 @@ void *__wrap_realloc (void *old, size_t size) {
     p = realloc (old, size);
   }
   e = tab_add ((uintptr_t) p, size, ST_RAW);
-  ev ("{\"e\":\"RawRealloc\",\"old\":%ld,\"owner\":\"%s\",\"id\":%ld,\"size\":%zu,\"pc\":%ld}", oid, owner, e->id, size, CALLER ());
+  ev ("{\"e\":\"RawRealloc\",\"old\":%ld,\"owner\":\"%s\",\"id\":%ld,\"size\":%zu,\"bt\":%s}", oid, owner, e->id, size, CALLER ());
   return p;
 }
 
 void *__wrap_mmap (void *addr, size_t len, int prot, int flags, int fd, off_t off) {
-  ev ("{\"e\":\"RawMmap\",\"len\":%zu,\"pc\":%ld}", len, CALLER ());
+  ev ("{\"e\":\"RawMmap\",\"len\":%zu,\"bt\":%s}", len, CALLER ());
   return mmap (addr, len, prot, flags, fd, off);
 }
 
 int __wrap_munmap (void *addr, size_t len) {
   reg_t *r = reg_find (addr);
-  ev ("{\"e\":\"RawMunmap\",\"r\":%ld,\"len\":%zu,\"pc\":%ld}", r ? r->id : 0L, len, CALLER ());
+  ev ("{\"e\":\"RawMunmap\",\"r\":%ld,\"len\":%zu,\"bt\":%s}", r ? r->id : 0L, len, CALLER ());
   if (r != NULL) return 0; /* a region of the user's code allocator: not handed to the kernel */
   return munmap (addr, len);
 }
 
 int __wrap_mprotect (void *addr, size_t len, int prot) {
   reg_t *r = reg_find (addr);
-  ev ("{\"e\":\"RawMprotect\",\"r\":%ld,\"len\":%zu,\"prot\":%d,\"pc\":%ld}", r ? r->id : 0L, len, prot, CALLER ());
+  ev ("{\"e\":\"RawMprotect\",\"r\":%ld,\"len\":%zu,\"prot\":%d,\"bt\":%s}", r ? r->id : 0L, len, prot, CALLER ());
   return mprotect (addr, len, prot);
 }
 
 /* other libc entry points that hand out or take over heap blocks: logged, then forwarded */
-#define RAW_OTHER(name) ev ("{\"e\":\"RawOther\",\"f\":\"" name "\",\"pc\":%ld}", CALLER ())
+#define RAW_OTHER(name) ev ("{\"e\":\"RawOther\",\"f\":\"" name "\",\"bt\":%s}", CALLER ())
 char *__wrap_strdup (const char *s) { RAW_OTHER ("strdup"); return strdup (s); }
 char *__wrap_strndup (const char *s, size_t n) { RAW_OTHER ("strndup"); return strndup (s, n); }
 int __wrap_posix_memalign (void **p, size_t a, size_t n) { RAW_OTHER ("posix_memalign"); return posix_memalign (p, a, n); }
